@@ -4,6 +4,7 @@ import (
 	"fmt"
 	"sort"
 	"strings"
+	"unicode/utf8"
 
 	"github.com/M2MGateway/go-smpp/coding"
 	"github.com/M2MGateway/go-smpp/pdu"
@@ -31,6 +32,7 @@ type c07Coding struct {
 	// fixedUnit > 0: every character of the repertoire used for "fixed-width" texts takes this many bits
 	stateful bool
 	pools    map[int][]rune // by octets of the one-character encoding (GSM: by septets)
+	specials []rune         // accepted characters by UTF-8 form: U+FFFD (= utf8.RuneError) first, then a 4-, 3-, 2-octet sequence
 }
 
 func c07Codings() []*c07Coding {
@@ -61,6 +63,31 @@ func c07Codings() []*c07Coding {
 				out, cls := wdEncode(cd.c, string(r))
 				if cls == 0 && len(out) > 0 {
 					cd.pools[len(out)] = append(cd.pools[len(out)], r)
+				}
+			}
+		}
+	}
+	// characters whose UTF-8 form matters to a splitter that walks bytes: U+FFFD is what utf8.DecodeRune
+	// returns for malformed input, so a byte-walking splitter may mistake the genuine character for an error
+	for _, cd := range l {
+		accepts := func(x rune) bool {
+			if cd.gsm {
+				_, ok := stdSeptets[x]
+				return ok && !isD16(x)
+			}
+			out, cls := wdEncode(cd.c, string(x))
+			return cls == 0 && len(out) > 0
+		}
+		if accepts(0xFFFD) {
+			cd.specials = append(cd.specials, 0xFFFD)
+		}
+		extra := []rune{0x1F600, 0x20000, 0x10FFFF, 0xFFFC, 0xFFFE, 0xFFFF, 0xFEFF, 0x20AC, 0x2116, 0x2017, 0x200E, 0x3042, 0x30A2, 0x4E00, 0xAC00, 0xFF71, 0x7FF, 0x800, 0x3A9, 0x401, 0x5D0, 0xE9, 0xA7, 0x80}
+		for _, want := range []int{4, 3, 2} {
+			n := 0
+			for _, x := range extra {
+				if utf8.RuneLen(x) == want && accepts(x) && n < 2 {
+					cd.specials = append(cd.specials, x)
+					n++
 				}
 			}
 		}
@@ -127,6 +154,16 @@ func describeText(rs []rune) string {
 	s := string(rs)
 	if len(rs) > 24 {
 		s = string(rs[:12]) + "..." + string(rs[len(rs)-8:])
+	}
+	// where the text departs from its first character (the positions the generators vary)
+	var marks []string
+	for i, x := range rs {
+		if x != rs[0] && len(marks) < 4 && (i == 0 || rs[i-1] != x || len(rs) <= 24) {
+			marks = append(marks, fmt.Sprintf("[%d]=U+%04X", i, x))
+		}
+	}
+	if len(rs) > 24 && len(marks) > 0 {
+		return fmt.Sprintf("%d runes %q %s", len(rs), s, strings.Join(marks, " "))
 	}
 	return fmt.Sprintf("%d runes %q", len(rs), s)
 }
@@ -446,7 +483,7 @@ func corrC07(r *Run) {
 	r.PerShard(40)
 	r.Rule = "ComposeMultipartShortMessage on generated texts per repertoire (GSM 7-bit with extension characters, four single-octet charsets, " +
 		"Shift-JIS, EUC-JP incl. 3-octet characters, ISO-2022-JP, EUC-KR, UCS-2 incl. supplementary planes): wide characters at every offset -3..+3 " +
-		"around the part boundary, lengths 0 .. beyond 254 parts, references {0,1,254,255,256,65535}+random; Splitter.Split with small limits. " +
+		"around the part boundary, U+FFFD and other characters with 2/3/4-octet UTF-8 forms at every offset -3..+3 around every part boundary, lengths 0 .. beyond 254 parts, references {0,1,254,255,256,65535}+random; Splitter.Split with small limits. " +
 		"non-trivial = distinct non-empty (coding, reference, text) / (coding, limit, text)"
 	c := &c07{r: r, seen: map[string]bool{}}
 	cds := c07Codings()
@@ -525,6 +562,43 @@ func corrC07(r *Run) {
 					t := append(rept(a, 2*per+off), b)
 					t = append(t, rept(a, 9)...)
 					c.compose(cd, t, ref, "wide character at the second boundary")
+				}
+			}
+		}
+		// ---- characters by their UTF-8 form (U+FFFD, 4-, 3-, 2-octet sequences) at every offset -3..+3 around
+		//      EVERY part boundary: nothing may be cut inside a multi-octet sequence, whatever the splitter walks
+		nbound := r.N(2, 4)
+		if cd.name == "ucs2" {
+			nbound = r.N(3, 6)
+		}
+		for si, x := range cd.specials {
+			if r.Quick && cd.name != "ucs2" && si > 0 && x != 0xFFFD {
+				break
+			}
+			for _, ref := range []uint16{255, 256} {
+				per := per8
+				if ref > 255 {
+					per = per16
+				}
+				for k := 1; k <= nbound; k++ {
+					for off := -3; off <= 3; off++ {
+						t := append(rept(a, k*per+off), x)
+						t = append(t, rept(a, per/2+3)...)
+						c.compose(cd, t, ref, "UTF-8 multi-octet character at offset -3..+3 of every part boundary")
+					}
+				}
+			}
+			// two of them next to each other and one at the very end of the text
+			t := append(rept(a, per8-1), x, x)
+			t = append(t, rept(a, per8-2)...)
+			t = append(t, x)
+			c.compose(cd, t, 255, "UTF-8 multi-octet character at offset -3..+3 of every part boundary")
+			// Split itself, small limits: the character at every position
+			for pos := 0; pos <= r.N(16, 40); pos++ {
+				for _, limit := range []int{6, 7} {
+					t := append(rept(a, pos), x)
+					t = append(t, rept(a, 9)...)
+					c.split(cd, t, limit)
 				}
 			}
 		}
